@@ -457,6 +457,14 @@ class Builtins:
             return a + b
         if isinstance(a, str) and isinstance(b, int) and T is ast.Mult:
             return a * b
+        if isinstance(a, str) and T is ast.Mod:
+            args = tuple(b.items) if isinstance(b, Seq) and b.kind == "tuple" and not b.has_seg() else b
+            flat = args if isinstance(args, tuple) else (args,)
+            if all(isinstance(x, (int, float, str, bool)) or x is None for x in flat):
+                try:
+                    return a % args
+                except (TypeError, ValueError) as e:
+                    raise Raised(self.mkexc(type(e).__name__, str(e)))
         if isinstance(a, (str, SymStr)) and T is ast.Mod:
             return mkstr([SAtom("PercentFormat", a, b)])
         if isinstance(a, Seq) and isinstance(b, Seq) and T is ast.Add:
